@@ -297,6 +297,7 @@ fn c13(quick: bool) -> PropRun {
         scs.push(spec("C13.rtt-drop-then-backlog", &cfg, &si, env, 1, oracles));
     }
     scs.push(crate::props_ew::c13_endpoint_scenario());
+    scs.push(crate::props_ew::config_extremes_scenario("C13", crate::eprops::EO_C13, if quick { 2 } else { 3 }));
     PropRun { level: "model_checking", scenarios: scs, units: vec![], replay_case: None, summary: lw_summary(
         "every pair of emission instants of every execution is checked against bytes <= C*(dt + RTT*) + 1472 (no rounding allowance), C = the connection's negotiated ceiling, RTT* = the largest estimate reported from the step before the interval to its end",
         json!({"d": d, "ceilings_Bps": [1472, 5000, 100_000, 2_000_000], "backlogs": "0, 1, 20, 100 frames, one 60 kB packet, both directions", "deltas_ms": [20, 0, 1, 1000, 60_000], "extra_flushes_per_step": [0, 1, 3]}),
